@@ -14,6 +14,11 @@ The server API is a generated dimension: ``HTTPServer(Application)``, ``HTTPServ
 and ``HTTPServer(<plain callable>)`` (wrapped by ``_CallableAdapter``; the callable answers via ``request.connection``),
 each with ``xheaders`` on (4/5) or off (1/5; then the proxy headers must be ignored entirely).
 
+Part ``grid`` (exhaustive, deterministic): 53 garbage candidates (empty labels, leading / trailing dots, 63 / 64 / 300-character labels,
+non-ASCII, spaces, brackets, %scope, "*", empty string, ...) x 7 placements (X-Real-Ip; X-Forwarded-For alone / rightmost / leftmost /
+after a trusted entry / second header line; X-Real-Ip next to a valid X-Forwarded-For) x 2 server APIs, each followed by a bare request
+and a third request on the same connection.
+
 Oracle, per request and **from that request's own headers only** (so any carry-over from an earlier
 request is a mismatch):
   * candidate = X-Real-Ip if present, else the rightmost X-Forwarded-For entry not in T;
@@ -50,6 +55,10 @@ Sensitivity (quick tier, seed 1, one mutant at a time on a scratch copy of torna
        -> caught at seeds 1, 2, 3 after the server API became a generated dimension (Application / bare delegate /
           plain callable, xheaders on/off): C32.proxy_ip_ignored / C32.protocol_selection on api=callable; MISSED before,
           when only HTTPServer(Application) was driven.  replays/C32/callable-api-xheaders.json pins it.
+  M11 netutil.is_valid_ip: `except UnicodeError: return False` replaced by an up-front len(ip) > 63 test (the idna step also raises
+      UnicodeError for an EMPTY LABEL such as "4.4..4", ".1.2.3", "."), so _apply_xheaders raises and the connection is dropped
+       -> caught at seeds 1, 2, 3 by the new exhaustive ``grid`` part (C32.uncaught_exception on X-Real-Ip "4.4..4" / "."); before it
+          was caught only when the random soup happened to produce an empty label (missed at seed 3).
   M8 _ProxyAdapter.on_connection_close does not call _cleanup (DESIGN's first mutant) -> NOT caught, and not
      catchable through the statement: the context belongs to one connection and on_connection_close means that
      connection is gone, so no later request can observe the stale values (equivalent mutant for this property).
@@ -451,14 +460,54 @@ def run_case(ctx, case):
     ctx.note(case, labels, nontrivial)
 
 
-PARTS = {"main": run_case}
-REQUIRED = ["api_app", "api_delegate", "api_callable", "xheaders_off", "leak_probe", "trusted_skip", "garbage_ip", "proto_list", "ip_from_header", "proto_from_header", "kind_early",
+# --------------------------------------------------------------------------- systematic garbage grid
+# Every garbage candidate goes through every proxy-IP header and list position, on two server APIs, each followed by a bare
+# request on the same connection (the connection must survive and show the socket values again).
+GRID_POOL = [
+    "4.4..4", ".1.2.3", "1.2.3.4..", "1.2.3.4.", ".", "..", "...", "a..b", "1..2", "::1.", ".::1", "..1", "1.2.3.4.5.", "localhost.",
+    "a" * 63, "a" * 64, "1" * 64, "a" * 64 + ".1", "1.2.3." + "4" * 64, "x" * 300, "1." * 40 + "1", "xn--", "xn--a", "-", "_", "0x",
+    "\xe9", "\xb9.2.3.4", "\xaa::1", "1.2.3.\xb2", "\xff" * 70, "1.2.3.4 5", "1.2\t.3.4", "[::1]", "[1.2.3.4]", "[", "]", "::1%", "%", "1.2.3.4%",
+    "fe80::1%eth0", "fe80::1%" + "x" * 70, "1.2.3.4%25", "", "1.2.3.4:80", "1.2.3.4/", "1.2.3.4/24", "*", "**", "unknown", ":", "::::", "1:2",
+]
+GRID_PLACEMENTS = ["real", "xff_alone", "xff_rightmost", "xff_leftmost", "xff_after_trusted_skip", "real_and_xff", "xff_two_lines"]
+
+
+def grid_cases():
+    for api in ("app", "callable"):
+        for g in GRID_POOL:
+            for pl in GRID_PLACEMENTS:
+                if pl == "real":
+                    hdrs = [("X-Real-Ip", g)]
+                elif pl == "xff_alone":
+                    hdrs = [("X-Forwarded-For", g)]
+                elif pl == "xff_rightmost":
+                    hdrs = [("X-Forwarded-For", ("1.2.3.4, " + g).strip(" "))]
+                elif pl == "xff_leftmost":
+                    hdrs = [("X-Forwarded-For", (g + ", 1.2.3.4").strip(" "))]
+                elif pl == "xff_after_trusted_skip":
+                    hdrs = [("X-Forwarded-For", (g + ", 10.0.0.1").strip(" "))]
+                elif pl == "real_and_xff":
+                    hdrs = [("X-Forwarded-For", "8.8.4.4"), ("X-Real-Ip", g)]
+                else:
+                    hdrs = [("X-Forwarded-For", "1.2.3.4"), ("X-Forwarded-For", g)]
+                yield {"api": api, "xheaders": True, "sock": ("v4", "203.0.113.9"), "trusted": ["10.0.0.1"], "conn_proto": None,
+                       "requests": [("get", hdrs), ("get", []), ("get", [("X-Scheme", "https")] + hdrs)]}
+
+
+def run_grid_case(ctx, case):
+    run_case(ctx, case)
+    ctx.label("grid")
+
+
+PARTS = {"main": run_case, "grid": run_grid_case}
+REQUIRED = ["grid", "api_app", "api_delegate", "api_callable", "xheaders_off", "leak_probe", "trusted_skip", "garbage_ip", "proto_list", "ip_from_header", "proto_from_header", "kind_early",
             "kind_bad", "sock_unix", "sock_v6", "all_trusted_either"]
 
 
 def main(ctx):
     ctx.run_replays(PARTS)
     ctx.explore(case_s, run_case, ctx.n(1500, 60000), name="main")
+    ctx.enumerate(grid_cases(), run_grid_case, name="grid")
     for lab in REQUIRED:
         if not ctx.violations and not ctx.labels.get(lab):
             ctx.warnings.append("required label never hit: %s" % lab)
